@@ -50,3 +50,17 @@ Proof.
   destruct (eh && negb (len (s_prev st1) =? 0))%bool; [discriminate|]. intro H; inversion H; subst.
   eapply ref_run_of_frame_loop. exact FL.
 Qed.
+
+(* the hypothesis of header_frame_not_fatal (Proofs/SrvIsoErr.v) holds for the real decoder: a decoded field
+   consumes at least one octet *)
+From H2V Require Import Proofs.HpackBlock.
+Lemma srv_dec_shrinks : forall d n b k v rest d',
+  srv_dec_field d n b = DField _ k v rest d' -> (length rest < length b)%nat.
+Proof.
+  intros d n b k v rest d'. unfold srv_dec_field.
+  destruct (nf_res (next_field d empty_field true n b)) as [[rest0 [|]]|e|w] eqn:R; try discriminate.
+  - intro H; inversion H; subst. destruct b as [|x b].
+    + exfalso. revert R. unfold next_field. cbn. discriminate.
+    + destruct (next_field_progress d empty_field true n (x :: b) rest true) as [L _]; [discriminate | exact R | exact L].
+  - destruct (e =? E_unexpected_size); discriminate.
+Qed.
